@@ -79,7 +79,7 @@ package notify
 // ticks and context cancellation is allowed, so everything below holds for all of them).
 //@ spec resolvedAtN(a *alert.Alert, now time.Time) bool = a.EndsAt != 0 && a.EndsAt <= now
 //@ func (RetryStage).exec
-//@   props C05 C20 C06
+//@   props C05 C20 C06 C04
 //@   abstract
 //@   requires r.metrics != nil && l != nil && ctx != nil && tracer != nil
 //@            && r.metrics.notificationLatencySeconds != nil && r.metrics.numNotificationRequestsTotal != nil && r.metrics.numNotificationRequestsFailedTotal != nil
